@@ -78,6 +78,11 @@ func TestWorker(t *testing.T) {
 			rs = *fRunSeed
 		}
 		prof := MakeProfile(*fProp, rs, *fTier)
+		if *fProp == "C03" && j%5 == 4 && *fRunSeed == 0 {
+			// every fifth run index: a complete single-crash sweep of a fault-free base schedule
+			sweepC03(t, enc, bw, rs, deadline)
+			continue
+		}
 		stop := watchdog(180*time.Second, fmt.Sprintf("run seed=%d", rs))
 		res := Run(t, rs, prof, nil, i < 2)
 		stop()
@@ -225,4 +230,45 @@ func simplifyCmd(c core.Cmd) []core.Cmd {
 		}
 	}
 	return out
+}
+
+// sweepC03 runs a fault-free base schedule, then re-runs it once per step with a
+// crash inserted after that step -- with nothing, everything, and each single
+// one of the in-flight mutating operations applied -- followed by the epilogue
+// (restart, audit, fresh entry). A complete single-crash sweep of that schedule.
+func sweepC03(t *testing.T, enc *json.Encoder, bw *bufio.Writer, rs uint64, deadline time.Time) {
+	prof := MakeProfile("C03", rs, *fTier)
+	prof.Tag = "sweep-base"
+	prof.OpErrW, prof.CrashW, prof.ClockW, prof.StallW, prof.StopW, prof.SlowW, prof.MaxCrashes = 0, 0, 0, 0, 0, 0, 0
+	prof.Steps = 60 + int(rs%60)
+	if prof.Items > 12 {
+		prof.Items = 12
+	}
+	stop := watchdog(180*time.Second, fmt.Sprintf("sweep base seed=%d", rs))
+	base := Run(t, rs, prof, nil, false)
+	stop()
+	enc.Encode(base)
+	bw.Flush()
+	trace := append([]core.Cmd(nil), lastTrace...)
+	prof.Tag = "sweep"
+	prof.MaxCrashes = 1
+	for i := 1; i <= len(trace) && time.Now().Before(deadline); i++ {
+		for _, variant := range [][]int{nil, {0, 1, 2, 3, 4, 5, 6, 7}, {0}, {1}, {2}, {3}} {
+			tr := append(append([]core.Cmd(nil), trace[:i]...), core.Cmd{A: "crash", L: variant})
+			stop := watchdog(180*time.Second, fmt.Sprintf("sweep seed=%d at %d", rs, i))
+			res := Run(t, rs, prof, tr, false)
+			stop()
+			res.ProfileTag = "sweep"
+			if vs := relevant(res, *fProp); len(vs) > 0 && *fFailDir != "" {
+				rp := &core.Replay{Property: vs[0].Property, Engine: engineName, Seed: rs, Profile: prof.JSON(),
+					Trace: tr, Violation: vs[0].String(), Class: vs[0].Class, OrigLen: len(tr)}
+				rp.Save(fmt.Sprintf("%s/fail-%s-%d.json", *fFailDir, vs[0].Property, rs))
+			}
+			enc.Encode(res)
+			bw.Flush()
+			if res.Probes["crash.inflight"] == 0 && res.Probes["crash.loading-inflight"] == 0 {
+				break // nothing was in flight at this step: the other subsets are the same run
+			}
+		}
+	}
 }
